@@ -240,6 +240,35 @@ pub fn run(seed: u64, n: usize, out: &str, only: Option<usize>) {
             bomb_peaks.extend(row);
         }
     }
+    // short and whitespace-laden strings (every run): lengths around the 3-byte minimum, blanks that a
+    // trim would remove, a valid string with blanks or line ends around it
+    {
+        let valid = gen_machine(&mut SplitMix64::new(seed ^ 0x5a5a), &MProfile::mixed()).serialize();
+        let mut hostile: Vec<String> = ["", " ", "0", "02", "  ", "   ", "\n\n\n", "\t \r\n", "0\n\n", "2  ", " 0 ", "  2\n", "02 ", "02\n", " 02", "02=", "02==", "02A", "02AA", "02AA==", "02A===", "\u{0}\u{0}\u{0}", "                "]
+            .iter()
+            .map(|x| x.to_string())
+            .collect();
+        for (pre, post) in [("", "\n"), ("", "\r\n"), (" ", ""), ("", " "), ("\n", "\n"), ("", "="), ("", "\u{0}")] {
+            hostile.push(format!("{}{}{}", pre, valid, post));
+        }
+        hostile.push(valid.to_uppercase());
+        hostile.push(valid.to_lowercase());
+        for text in &hostile {
+            match catch_unwind(AssertUnwindSafe(|| Machine::from_str(text))) {
+                Err(_) => {
+                    viol += 1;
+                    writeln!(meta, "violation case=0 from_str panicked on the {}-byte string {:?}", text.len(), &text[..text.len().min(60)]).unwrap();
+                }
+                Ok(Ok(mm)) => {
+                    if mm.validate().is_err() {
+                        viol += 1;
+                        writeln!(meta, "violation case=0 from_str returned a machine that does not pass validation for {:?}", &text[..text.len().min(60)]).unwrap();
+                    }
+                }
+                Ok(Err(_)) => {}
+            }
+        }
+    }
     for i in 0..n {
         let mut r = master.fork();
         if let Some(o) = only {
